@@ -41,6 +41,8 @@ func main() {
 		runC05(r, rng, thorough)
 	case "C06":
 		runC06(r, rng, thorough)
+	case "C18":
+		runC18(r, rng, thorough)
 	case "C14":
 		runC14(r, rng, thorough)
 	case "C17":
